@@ -146,3 +146,170 @@ def establish_strategies(hashed, tier):
             sim=[{"proof": "state", "slot": slot, "field": "T"}, {"proof": "close", "slot": slot, "field": "T"}])
         add(f"revealed scalar {k} shifted only", rev_delta={k: 1})
     return S
+
+
+# ======================================================================================= Pay
+
+def pay_hashed(obs):
+    """observe.json -> hashed flags of the pay proof: revealed scalars, C / T per sub-proof"""
+    h = {"rev": {}, "C": {}, "T": {}, "sig": {}, "other_unhashed": []}
+    cdC = cdT = mdC = mdT = True
+    for a in obs["atoms"]:
+        if a["response"]:
+            continue
+        p = a["path"]
+        if p == "old_nonce_commitment_scalar":
+            h["rev"]["nonce"] = a["hashed"]
+        elif p == "close_tag_commitment_scalar":
+            h["rev"]["tag"] = a["hashed"]
+        elif p.startswith("old_pay_token_proof.commitment_proof."):
+            h["C" if p.endswith(".commitment") else "T"]["pt"] = a["hashed"]
+        elif p.startswith("old_revocation_lock_proof."):
+            h["C" if p.endswith(".commitment") else "T"]["rl"] = a["hashed"]
+        elif p.startswith("state_proof.commitment_proof."):
+            h["C" if p.endswith(".commitment") else "T"]["st"] = a["hashed"]
+        elif p.startswith("close_state_proof.commitment_proof."):
+            h["C" if p.endswith(".commitment") else "T"]["cl"] = a["hashed"]
+        elif ".digit_proofs." in p and ".commitment_proof." in p:
+            cust = p.startswith("customer_balance_proof")
+            if p.endswith(".commitment"):
+                if cust: cdC = cdC and a["hashed"]
+                else: mdC = mdC and a["hashed"]
+            else:
+                if cust: cdT = cdT and a["hashed"]
+                else: mdT = mdT and a["hashed"]
+        elif "blinded_signature" in p:
+            h["sig"][p] = a["hashed"]
+        if not a["hashed"] and p not in h["other_unhashed"]:
+            h["other_unhashed"].append(p)
+    h["C"]["cdig"], h["T"]["cdig"], h["C"]["mdig"], h["T"]["mdig"] = cdC, cdT, mdC, mdT
+    return h
+
+
+PAY_MEMBERS = {"pay.cid": {"a": "st", "b": "cl", "c": "pt"}, "pay.nonce": {"a": "pt"}, "pay.tag": {"a": "cl"},
+               "pay.oldlock": {"a": "rl", "b": "pt"}, "pay.newlock": {"a": "st", "b": "cl"},
+               "pay.cb": {"pt": "pt", "st": "st", "cl": "cl", "d1": "cdig"}, "pay.mb": {"pt": "pt", "st": "st", "cl": "cl", "d1": "mdig"}}
+PAY_SHAPE = {"pay.cid": "Eq3", "pay.nonce": "Open1", "pay.tag": "Open1", "pay.oldlock": "Eq2", "pay.newlock": "Eq2",
+             "pay.cb": "Bal1", "pay.mb": "Bal1"}
+
+
+def pay_clusters(ab, hashed):
+    """ab: {cluster: {"m": {...}, "t": {...}, "s": int, "lateRev": bool, "lateT": [...], "lateC": [...]}} overrides of the honest instance"""
+    honest = {
+        "pay.cid": {"m": {"a": 1, "b": 1, "c": 1}, "t": {"a": 1, "b": 1, "c": 1}},
+        "pay.nonce": {"m": {"a": 1}, "t": {"a": 1}, "s": 1},
+        "pay.tag": {"m": {"a": 1}, "t": {"a": 1}, "s": 1},
+        "pay.oldlock": {"m": {"a": 1, "b": 1}, "t": {"a": 1, "b": 1}},
+        "pay.newlock": {"m": {"a": 1, "b": 1}, "t": {"a": 1, "b": 1}},
+        "pay.cb": {"m": {"pt": 2, "st": 1, "cl": 1, "d1": 1}, "t": {"pt": 1, "st": 1, "cl": 1, "d1": 1}},
+        "pay.mb": {"m": {"pt": 0, "st": 1, "cl": 1, "d1": 1}, "t": {"pt": 1, "st": 1, "cl": 1, "d1": 1}},
+    }
+    out = []
+    for name, h in honest.items():
+        o = ab.get(name, {})
+        m = dict(h["m"]); m.update(o.get("m", {}))
+        t = dict(h["t"]); t.update(o.get("t", {}))
+        mem = PAY_MEMBERS[name]
+        rev = {"pay.nonce": "nonce", "pay.tag": "tag"}.get(name)
+        out.append({"name": name, "shape": PAY_SHAPE[name], "neg": name == "pay.cb", "m": m, "t": t,
+                    "s": o.get("s", h.get("s", 0)), "pub": 1, "lateRev": o.get("lateRev", False),
+                    "lateT": o.get("lateT", []), "lateC": o.get("lateC", []),
+                    "hashedRev": hashed["rev"].get(rev, True) if rev else True,
+                    "hashedT": [x for x, p in mem.items() if hashed["T"].get(p, False)],
+                    "hashedC": [x for x, p in mem.items() if hashed["C"].get(p, False)]})
+    return out
+
+
+def pay_strategies(hashed, tier):
+    S = []
+    ok5 = ["ok"] * 5
+
+    def v(slot, kind):
+        x = list(ok5); x[slot] = kind; return x
+
+    def add(name, ab=None, **kw):
+        d = {"proof": "pay", "id": 1000 + len(S) + 1, "name": name, "hpt": ok5, "hst": ok5, "hcl": ok5, "hrl": "ok",
+             "claimed_nonce": "real", "token": "real", "unlink": [], "rev": {}, "sim": [], "rev_delta": {},
+             "amount": 7, "cb": 100, "mb": 50, "history": []}
+        d.update(kw)
+        d["clusters"] = pay_clusters(ab or {}, hashed)
+        S.append(d)
+
+    # honest payments of either sign, zero, boundary, after a history
+    add("honest +7")
+    add("honest -5", amount=-5)
+    add("honest 0", amount=0)
+    add("honest whole customer balance", amount=100)
+    add("honest whole merchant balance back", amount=-50)
+    if tier != "quick":
+        add("honest after one payment", history=[3])
+        add("honest up to 2^63-1", cb=2**63 - 1, mb=0, amount=2**63 - 1)
+    # wrong nonce
+    for kind in ("fresh", "plus1"):
+        add(f"claimed nonce {kind}", {"pay.nonce": {"m": {"a": 2}}}, claimed_nonce=kind)
+        add(f"claimed nonce {kind}, nonce scalar chosen late", {"pay.nonce": {"m": {"a": 2}, "lateRev": True}}, claimed_nonce=kind, rev={"nonce": "late"})
+    # close tag replaced
+    for kind in ("fresh", "plus1"):
+        add(f"close tag slot {kind}", {"pay.tag": {"m": {"a": 2}}}, hcl=v(1, kind))
+        add(f"close tag slot {kind}, tag scalar chosen late", {"pay.tag": {"m": {"a": 2}, "lateRev": True}}, hcl=v(1, kind), rev={"tag": "late"})
+        for f in ("T", "C"):
+            add(f"close tag slot {kind}, simulate cl.{f}", {"pay.tag": {"m": {"a": 2}, "late" + f: ["a"]}}, hcl=v(1, kind),
+                sim=[{"proof": "cl", "slot": 1, "field": f}])
+    # foreign channel id
+    add("foreign cid in state and close state", {"pay.cid": {"m": {"a": 2, "b": 2}}}, hst=v(0, "plus1"), hcl=v(0, "plus1"))
+    add("foreign cid in state only", {"pay.cid": {"m": {"a": 2}}}, hst=v(0, "plus1"))
+    add("foreign cid in close state only", {"pay.cid": {"m": {"b": 2}}}, hcl=v(0, "fresh"))
+    add("foreign cid in state and close state, unlinked from token", {"pay.cid": {"m": {"a": 2, "b": 2}, "t": {"a": 2, "b": 2}}},
+        hst=v(0, "plus1"), hcl=v(0, "plus1"), unlink=["st0"])
+    for f in ("T", "C"):
+        add(f"foreign cid in state only, simulate st.{f}", {"pay.cid": {"m": {"a": 2}, "late" + f: ["a"]}}, hst=v(0, "plus1"),
+            sim=[{"proof": "st", "slot": 0, "field": f}])
+        add(f"foreign cid in close state only, simulate cl.{f}", {"pay.cid": {"m": {"b": 2}, "late" + f: ["b"]}}, hcl=v(0, "plus1"),
+            sim=[{"proof": "cl", "slot": 0, "field": f}])
+    # old revocation lock
+    for kind in ("fresh", "plus1"):
+        add(f"lock commitment to {kind} value", {"pay.oldlock": {"m": {"a": 2}}}, hrl=kind)
+        add(f"lock commitment to {kind} value, unlinked", {"pay.oldlock": {"m": {"a": 2}, "t": {"b": 2}}}, hrl=kind, unlink=["pt2"])
+        for f in ("T", "C"):
+            add(f"lock commitment to {kind} value, simulate rl.{f}", {"pay.oldlock": {"m": {"a": 2}, "late" + f: ["a"]}}, hrl=kind,
+                sim=[{"proof": "rl", "slot": 0, "field": f}])
+    # new revocation lock
+    add("new lock differs in close state", {"pay.newlock": {"m": {"b": 2}}}, hcl=v(2, "plus1"))
+    add("new lock differs in state", {"pay.newlock": {"m": {"a": 2}}}, hst=v(2, "fresh"))
+    add("new lock differs in close state, unlinked", {"pay.newlock": {"m": {"b": 2}, "t": {"b": 2}}}, hcl=v(2, "plus1"), unlink=["cl2"])
+    for f in ("T", "C"):
+        add(f"new lock differs in close state, simulate cl.{f}", {"pay.newlock": {"m": {"b": 2}, "late" + f: ["b"]}}, hcl=v(2, "plus1"),
+            sim=[{"proof": "cl", "slot": 2, "field": f}])
+        add(f"new lock differs in state, simulate st.{f}", {"pay.newlock": {"m": {"a": 2}, "late" + f: ["a"]}}, hst=v(2, "plus1"),
+            sim=[{"proof": "st", "slot": 2, "field": f}])
+    # wrong amount on one balance (state and close state agree with each other)
+    add("customer balance moved by amount+1", {"pay.cb": {"m": {"st": 0, "cl": 0, "d1": 0}}}, hst=v(3, "minus1"), hcl=v(3, "minus1"))
+    add("customer balance not moved", {"pay.cb": {"m": {"st": 2, "cl": 2, "d1": 1}}}, hst=v(3, "val:100"), hcl=v(3, "val:100"))
+    add("merchant balance moved by amount+1", {"pay.mb": {"m": {"st": 2, "cl": 2, "d1": 1}}}, hst=v(4, "plus1"), hcl=v(4, "plus1"))
+    add("merchant balance not moved", {"pay.mb": {"m": {"st": 0, "cl": 0, "d1": 0}}}, hst=v(4, "val:50"), hcl=v(4, "val:50"))
+    add("claimed amount differs from the amount applied", {"pay.cb": {"m": {"st": 0, "cl": 0, "d1": 0}}, "pay.mb": {"m": {"st": 2, "cl": 2, "d1": 1}}},
+        amount=8, claimed_amount=7)
+    # close state balance differs from state balance
+    add("close state customer balance differs", {"pay.cb": {"m": {"cl": 2}}}, hcl=v(3, "plus1"))
+    add("close state merchant balance differs", {"pay.mb": {"m": {"cl": 2}}}, hcl=v(4, "plus1"))
+    add("close state merchant balance zero", {"pay.mb": {"m": {"cl": 0}}}, hcl=v(4, "val:0"))
+    add("close state customer balance differs, unlinked", {"pay.cb": {"m": {"cl": 2}, "t": {"cl": 2}}}, hcl=v(3, "plus1"), unlink=["cl3"])
+    for f in ("T", "C"):
+        add(f"close state merchant balance differs, simulate cl.{f}", {"pay.mb": {"m": {"cl": 2}, "late" + f: ["cl"]}}, hcl=v(4, "plus1"),
+            sim=[{"proof": "cl", "slot": 4, "field": f}])
+        add(f"close state customer balance differs, simulate cl.{f}", {"pay.cb": {"m": {"cl": 2}, "late" + f: ["cl"]}}, hcl=v(3, "plus1"),
+            sim=[{"proof": "cl", "slot": 3, "field": f}])
+    # out of range balances (wrap-around): the linear relations hold, only the range link can refuse
+    add("customer balance -1 (amount = balance+1), range proof for 0", {"pay.cb": {"m": {"pt": 0, "st": 6, "cl": 6, "d1": 0}}}, amount=101)
+    add("customer balance -1, range proof for 2^63-1", {"pay.cb": {"m": {"pt": 0, "st": 6, "cl": 6, "d1": 1}}}, amount=101, range_cb=2**63 - 1)
+    add("merchant balance -1 (amount = -(balance+1))", {"pay.mb": {"m": {"pt": 5, "st": 6, "cl": 6, "d1": 0}}}, amount=-51)
+    add("customer balance 2^63+99 (huge negative amount)", {"pay.cb": {"m": {"pt": 0, "st": 6, "cl": 6, "d1": 1}}, "pay.mb": {"m": {"pt": 5, "st": 6, "cl": 6, "d1": 0}}},
+        amount=-(2**63 - 1), range_cb=2**63 - 1)
+    add("customer balance -1, range proof unlinked", {"pay.cb": {"m": {"pt": 0, "st": 6, "cl": 6, "d1": 0}, "t": {"d1": 2}}}, amount=101, unlink=["pt3", "st3"])
+    # pay token
+    add("pay token signed by another key", token="otherkey")
+    add("old balance inflated consistently (token does not cover it)", hpt=v(3, "plus1"), hst=v(3, "plus1"), hcl=v(3, "plus1"))
+    add("old channel id replaced consistently (token does not cover it)", hpt=v(0, "plus1"), hst=v(0, "plus1"), hcl=v(0, "plus1"))
+    add("old nonce replaced consistently (token does not cover it)", hpt=v(1, "plus1"), claimed_nonce="plus1")
+    add("old lock replaced consistently (token does not cover it)", hpt=v(2, "plus1"), hrl="plus1")
+    return S
